@@ -293,9 +293,13 @@ def run(ck, facts):
     fsyn = core.fn("hir::type_context::TypeContext::from_syn")
     items = C.fn_body(fsyn).get("s", []) + ([C.fn_body(fsyn)["e"]] if C.fn_body(fsyn).get("e") else [])
     i_val = next((i for i, s in enumerate(items) if any(x.get("k") == "mcall" and x.get("m") == "validate" for x in C.walk(s))), None)
-    i_chk = next((i for i, s in enumerate(items) if C.strip(s).get("k") == "if" and any(x.get("k") == "mcall" and x.get("m") == "is_empty" for x in C.walk(C.strip(s)["c"])) and any(x.get("k") == "ret" for x in C.walk(C.strip(s)["t"]))), None)
-    i_ok = len(items) - 1
-    ck.expect(i_val is not None and i_chk is not None and i_val < i_chk < i_ok or (i_val is not None and i_chk is not None and i_val < i_chk <= i_ok), "R4", "from_syn/validate-then-check", "validate -> errors non-empty => Err -> Ok", "TypeContext::from_syn no longer validates and returns Err on a non-empty error store before Ok", C.loc(fsyn))
+    # every `Ok(..)` the function returns sits on a path where the error store was found empty (`if errors.is_empty() {Ok} else {Err}`, or after
+    # `if !errors.is_empty() { return Err }`), and that test comes after validate()
+    oks = [(n_, st_) for n_, st_ in C.with_conditions(C.fn_body(fsyn)) if n_.get("k") == "call" and (n_.get("ctor") or "").endswith("result::Result::Ok")]
+    is_empty = lambda c_: c_.get("k") == "mcall" and c_.get("m") == "is_empty"
+    guarded = bool(oks) and all(C.asserted(st_, is_empty) for _, st_ in oks)
+    i_ok = min((i for i, s in enumerate(items) for n_, _ in oks if any(x is n_ for x in C.walk(s))), default=None)
+    ck.expect(i_val is not None and guarded and i_ok is not None and i_val < i_ok, "R4", "from_syn/validate-then-check", "validate -> errors non-empty => Err -> Ok", "TypeContext::from_syn no longer validates and returns Err on a non-empty error store before Ok", C.loc(fsyn))
     val = core.fn("hir::type_context::TypeContext::validate")
     wct = [x for x in C.walk(C.fn_body(val)) if x.get("k") == "mcall" and x.get("m") == "with_contained_types"]
     elide = None
